@@ -16,7 +16,7 @@ RULE = ("histories of 2-6 clients (threads, one proxy each, reconnecting now and
         "thread pool with THREADPOOL_SIZE_MIN=1 (workers reused by successive connections); a sequential phase forces worker reuse after a "
         "raising call. distinct = (history hash, server, serializer); one evaluation = one request; non-trivial = the request reached a method")
 ASSUMPTIONS = ["oneway completions are awaited (10 s watchdog, expiry = inconclusive)", "peer address compared with the client's getsockname() (TCP loopback)"]
-REQUIRED_REACH = ["injected_yields", "snapshots_checked", "replies_checked", "raising_calls", "oneway_calls", "batch_calls", "ping_replies", "handshake_replies", "worker_reuse_handshakes", "idless_requests", "reply_correlation_ids_checked", "refused_handshake_replies", "bare_requests", "handshake_tokens_checked"]
+REQUIRED_REACH = ["stream_items_context_checked", "injected_yields", "snapshots_checked", "replies_checked", "raising_calls", "oneway_calls", "batch_calls", "ping_replies", "handshake_replies", "worker_reuse_handshakes", "idless_requests", "reply_correlation_ids_checked", "refused_handshake_replies", "bare_requests", "handshake_tokens_checked"]
 SHARD_TIMEOUT = {"quick": 240, "thorough": 2800}
 OPS = ["ret", "noresp", "noresp", "rais", "rais", "ow", "batch", "batch_rais", "propget", "propset", "ping", "handshake", "reconnect", "propget_rais", "badhandshake", "bare", "bare", "barepoll", "ow_rst"]
 # "ow_rst": a oneway call whose connection the client resets right after sending (the request may or may not get served)
@@ -99,6 +99,13 @@ def make_env(P, servertype, pool, variant=None):
             time.sleep(0.06 if hash(token) % 3 == 0 else 0.002)
             snapshot(token, idiom)
             slog.event(token).set()
+
+        def items(self, n):
+            # a streamed result: the body of this generator runs piece by piece, each piece while the request that fetches the next item is
+            # being served - the context it reads is that of THAT request
+            for k in range(n):
+                ann = {kk: bytes(v) for kk, v in (ctx.annotations or {}).items()}
+                yield [k, getattr(ctx.client, "_vserial", None), list(ctx.client_sock_addr) if ctx.client_sock_addr else None, (ann.get("TOKN") or b"").decode(), str(ctx.correlation_id), ctx.seq]
 
         @property
         def prop(self):
@@ -438,6 +445,55 @@ def sequential_reuse(fx, slog, rec, r, sername):
                 fx.wait_until(lambda: fx.live_connection_count() == 0, 5.0)
 
 
+def stream_context_phase(fx, rec, r, sername):
+    """a streamed method reads its call context while it produces each item: it is the context of the request fetching that item (the
+    caller's connection and address, that request's annotations, correlation id and sequence number), whoever else was served in between"""
+    import uuid
+    P = fx.P
+    ctx = P.callcontext.current_context
+    pa = fx.proxy("svc", serializer=sername, timeout=10.0)
+    pb = fx.proxy("svc", serializer=sername, timeout=10.0)
+    pay = {"stream_context": True, "serializer": sername, "servertype": fx.servertype}
+    rec.case(("stream-context", sername, fx.servertype), nontrivial=True)
+    bad = None
+    try:
+        serial_a = pa.whoami()
+        local_a = list(pa._pyroLocalSocket)
+        ctx.annotations = {"TOKN": b"A-open"}
+        it = pa.items(4)
+        for k in range(4):
+            # somebody else is served in between, with a context of its own
+            ctx.annotations = {"TOKN": b"B-call-%d" % k}
+            ctx.correlation_id = uuid.uuid4()
+            pb.ret("sc-b%d-%s" % (k, uuid.uuid4().hex), "rebind")
+            tok = "A-fetch-%d" % k
+            ctx.annotations = {"TOKN": tok.encode()}
+            ctx.correlation_id = corr = uuid.uuid4()
+            seq_before = pa._pyroSeq
+            item = list(next(it))
+            want = [k, serial_a, local_a, tok, str(corr), (seq_before + 1) & 0xFFFF]
+            if item != want:
+                bad = "item %d of client A's stream was produced under the context %r (item number, connection, peer address, TOKN annotation, correlation id, sequence number); the request fetching it had %r" % (k, item, want)
+                break
+            rec.count("stream_items_context_checked")
+        try:
+            it.close()
+        except Exception:
+            pass
+    except Exception as x:
+        rec.inconc("stream context phase failed in the harness: %r" % (x,))
+    finally:
+        ctx.annotations = {}
+        ctx.correlation_id = None
+        for p in (pa, pb):
+            try:
+                p._pyroRelease()
+            except Exception:
+                pass
+    if bad:
+        rec.violation("method-saw-foreign-context:streamed-item", bad, pay)
+
+
 def plan(tier, seed):
     shards = []
     nh = 40 if tier == "quick" else 400
@@ -455,6 +511,8 @@ def run_shard(shard, rec):
     rec.count("fixture_variant:" + fx.variant)
     try:
         sequential_reuse(fx, slog, rec, r, shard["serializer"])
+        if shard["pool"] >= 8:
+            stream_context_phase(fx, rec, r, shard["serializer"])
         if shard.get("inject"):
             yieldinj.enable(("Pyro5/server.py", "Pyro5/callcontext.py", "Pyro5/svr_threads.py", "Pyro5/svr_multiplex.py"), 0.03, rec.seed * 7 + 1)
         for h in range(shard["histories"]):
@@ -479,6 +537,14 @@ def run_shard(shard, rec):
 
 
 def replay(payload, rec):
+    if payload.get("stream_context"):
+        P = fixture.pyro()
+        fx, slog = make_env(P, payload["servertype"], 8)
+        try:
+            stream_context_phase(fx, rec, gen.rng(0, "replay"), payload["serializer"])
+        finally:
+            fx.stop()
+        return
     P = fixture.pyro()
     fx, slog = make_env(P, payload["servertype"], payload.get("pool", 8))
     try:
